@@ -7,6 +7,7 @@ package strategy
 
 import (
 	"context"
+	"fmt"
 	"sync"
 	"time"
 
@@ -29,7 +30,7 @@ func compareCurrentPodWithNewPod(params *Parameters, pod *corev1.Pod, node *Node
 	if !compareSpecTemplateMD5Hash(params.Replicaset.Spec.TemplateGeneration, pod) {
 		return false
 	}
-	if !compareWithExtendedDaemonsetSettingOverwrite(pod, node) {
+	if !compareWithExtendedDaemonsetSettingOverwrite(pod, ignoreContainersOverwrittenByNode(params, node)) {
 		return false
 	}
 	if !compareNodeResourcesOverwriteMD5Hash(params.EDSName, params.Replicaset, pod, node) {
@@ -37,6 +38,24 @@ func compareCurrentPodWithNewPod(params *Parameters, pod *corev1.Pod, node *Node
 	}
 
 	return true
+}
+
+// ignoreContainersOverwrittenByNode returns a NodeItem whose ExtendedDaemonsetSetting only keeps the containers
+// that are not overwritten by a Node annotation: at pod creation the Node annotation takes precedence.
+func ignoreContainersOverwrittenByNode(params *Parameters, node *NodeItem) *NodeItem {
+	if node.ExtendedDaemonsetSetting == nil || node.Node == nil {
+		return node
+	}
+	setting := node.ExtendedDaemonsetSetting.DeepCopy()
+	setting.Spec.Containers = nil
+	for _, container := range node.ExtendedDaemonsetSetting.Spec.Containers {
+		key := fmt.Sprintf(datadoghqv1alpha1.ExtendedDaemonSetRessourceNodeAnnotationKey, params.Replicaset.Namespace, params.EDSName, container.Name)
+		if _, found := node.Node.GetAnnotations()[key]; !found {
+			setting.Spec.Containers = append(setting.Spec.Containers, container)
+		}
+	}
+
+	return NewNodeItem(node.Node, setting)
 }
 
 func compareNodeResourcesOverwriteMD5Hash(edsName string, replicaset *datadoghqv1alpha1.ExtendedDaemonSetReplicaSet, pod *corev1.Pod, node *NodeItem) bool {
